@@ -14,8 +14,8 @@ from pgverif.monitors import tree as TM
 T = pg.typing
 
 TIERS = {
-    'quick': dict(shards=6, cases=170, steps=30),
-    'thorough': dict(shards=16, cases=1200, steps=60),
+    'quick': dict(shards=6, cases=150, steps=30),
+    'thorough': dict(shards=16, cases=800, steps=60),
 }
 RULE = ('case = a forest of 1-3 typed roots (object of a schema class incl. field-less classes '
         'and classes with required members nested 2-3 levels, pg.Dict or pg.List bound to a '
@@ -148,11 +148,8 @@ def spec_root(rng):
       if isinstance(spec, T.Dict) and spec.schema is not None and (
           not spec.schema.dynamic_field) and rng.random() < 0.6:
         # the reference rule for an undeclared key does not consult the library
-        bad = dict(V.value_for(spec, rng, valid=True))
-        bad[rng.choice(['zz', 'nk', 'x1'])] = rng.choice([1, 'v', None])
-        if any(k in bad for k in [str(k) for k in spec.schema.fields.keys()]
-               if k in ('zz', 'nk', 'x1')):
-          bad = None
+        bad = dict(V.value_for(spec, rng, valid=True) or {})
+        bad[rng.choice(['zz', 'nk', 'x1'])] = rng.choice([1, 'v', None])   # never declared
       if isinstance(bad, (dict if ctor is pg.Dict else list)):
         try:
           v = ctor(copy.deepcopy(bad), value_spec=spec)
@@ -264,7 +261,7 @@ class Values(H.ValueSource):
   or List spec: live nodes of the forest (roots are moved, inner nodes copied)
   and schema-less pg.Dict / pg.List operands (valid or invalid content)."""
 
-  def __init__(self, forest, target, p_move=0.14, p_symbolic=0.2, stats=None, **kw):
+  def __init__(self, forest, target, p_move=0.14, p_symbolic=0.3, stats=None, **kw):
     super().__init__(forest, target, **kw)
     self.p_move, self.p_symbolic, self.stats = p_move, p_symbolic, stats
 
@@ -410,9 +407,10 @@ def gen_undeclared(rng, forest):
   return rebind_step(ridx, at, rel, ['v', rng.choice([1, 'v', None, [1], {'a': 1}])], rng, sc)
 
 
-def gen_move(rng, forest, stats):
+def gen_move(rng, forest, stats, prefer=()):
   """A live root (or inner node) is assigned to a location typed with an
-  Object/Dict/List spec of another (or the same) tree, outside any partial scope."""
+  Object/Dict/List spec of another (or the same) tree, outside any partial scope.
+  prefer: root indices to use as the moved value when some location fits."""
   targets = []
   for ridx, keys, n in H.all_nodes(forest):
     if not is_typed(n):
@@ -430,10 +428,22 @@ def gen_move(rng, forest, stats):
         k = str(ks) if isinstance(ks, T.ConstStrKey) else rng.choice(['p', 'q', 'r1'])
         targets.append((ridx, keys, n, k, f))
   rng.shuffle(targets)
+  if prefer:
+    fits = []
+    for t in targets:
+      cands = [c for c in compatible_nodes(forest, (t[0], t[1] + [t[3]]), t[4].value, set())
+               if not c[1] and c[0] in prefer]
+      if cands:
+        fits.append((t, cands))
+    if not fits:
+      return None
+    targets = [rng.choice(fits)[0]]
   for ridx, keys, n, k, f in targets[:8]:
     cands = compatible_nodes(forest, (ridx, keys + [k]), f.value, set())
     roots = [c for c in cands if not c[1]]
-    if roots and rng.random() < 0.75:
+    if prefer:
+      cands = [c for c in roots if c[0] in prefer]
+    elif roots and rng.random() < 0.75:
       cands = roots
     if not cands:
       continue
@@ -524,8 +534,15 @@ def run_case(ctx, i):
   labels = [label]
   if rng.random() < 0.55:
     # companions: values that can be moved into / hold members of the first root
-    for _ in range(rng.choice([1, 1, 2])):
-      l2, r2 = nested_root(rng)
+    kinds = [rng.choice(NESTED_KINDS) for _ in range(rng.choice([1, 1, 2]))]
+    if rng.random() < 0.6:
+      # a value with required members nested two or more levels and a typed
+      # location that can receive it
+      kinds[0] = rng.choice(['ReqMid', 'ReqMid', 'ReqTop'])
+      if not isinstance(root, (M.ReqHolder, M.ReqTop)) and len(kinds) < 2:
+        kinds.append(rng.choice(['ReqHolder', 'ReqHolder', 'HolderDict', 'MidList', 'ReqTop']))
+    for kind in kinds:
+      l2, r2 = nested_root(rng, kind)
       forest.append(r2)
       labels.append(l2)
   label = ' ; '.join(labels)
@@ -636,14 +653,24 @@ def run_case(ctx, i):
       c['operand_root_heals'] += 1
     return found, clean, bool(skip) or flagged
 
+  made_partial = []     # roots below which a directed step made a member missing
   for _ in range(n_steps):
+    directed_missing = False
     if rng.random() < 0.5:
       observe(ctx, rng, forest)
     r = rng.random()
     step = None
-    if r < 0.09:
+    made_partial[:] = [j for j in made_partial if isinstance(forest[j], pg.Symbolic)]
+    if made_partial and rng.random() < 0.3:
+      # a root below which a member was made partial is used as a value elsewhere
+      step = gen_move(rng, forest, c, prefer=made_partial)
+      c['directed:move-partial'] += step is not None
+    if step is not None:
+      pass
+    elif r < 0.09:
       step = gen_make_missing(rng, forest)
       c['directed:make-missing'] += step is not None
+      directed_missing = step is not None
     elif r < 0.16:
       step = gen_undeclared(rng, forest)
       c['directed:undeclared-key'] += step is not None
@@ -680,6 +707,8 @@ def run_case(ctx, i):
       mech = f'typed-operand[{typed_ops[0]}]'
       c['typed_container_operands'] += 1
     found, clean, flagged = after_step(step, status, result, before, mech, record)
+    if directed_missing and status == 'ok' and step['at'][0] not in made_partial:
+      made_partial.append(step['at'][0])
     if status == 'raise' and not found and not flagged and record and rng.random() < 0.5 and (
         clean or any(d and d[0] == 'node' and not d[2] for d, _, _ in record)):
       # The same write again with the very same operand objects.
@@ -695,6 +724,8 @@ def run_case(ctx, i):
       kinds.append((step['op'] + '@retry', status2))
       c['retry:' + status2] += 1
       mech = step['op'] + '@retry' + ('!rejected' if status2 == 'raise' else '')
+      if typed_ops and status2 == 'ok':
+        mech = f'typed-operand[{typed_ops[0]}]'
       found, clean, flagged = after_step(step, status2, result2, before, mech, record)
     # Rejected operands stay available: later steps may use them elsewhere.
     if not found:
